@@ -95,3 +95,20 @@ Fixpoint cast_stores (off : N) (words : list N) : list range :=
 
 (* build_fn, PassMode::Indirect(sz): copy loop over sz bytes into a slot of sz bytes *)
 Definition byval_copy (sz : N) : list range := cpy_loops sz false.
+
+(* ---- fix candidate C02-2 / C02-3: aggregates are copied with `size` bytes ----
+   (write_all with ty.size() instead of ty.stride(); everything else unchanged) *)
+Definition write_all_sz (t : vlay) (on_stack : bool) : list range :=
+  if v_agg t then
+    if on_stack then cpy_loops (v_size t) false
+    else if v_size t =? 0 then [] else [(0, v_size t)]
+  else [(0, v_bytes t)].
+
+Definition variant_to_enum_sz (tag_width : N) (payload : option vlay) (discr_off : N) (on_stack : bool)
+  : list range :=
+  (match payload with Some p => write_all_sz p on_stack | None => [] end)
+  ++ write_val discr_off tag_width.
+
+Definition payload_to_union_sz (payload : option vlay) (discr_off : N) (on_stack : bool) : list range :=
+  (match payload with Some p => write_all_sz p on_stack | None => [] end)
+  ++ write_val discr_off 1.
